@@ -10,6 +10,7 @@
 //	sync.{WaitGroup,Mutex,RWMutex,Once} -> vsched.{...}
 //	runtime.NumCPU()                -> vsched.NumCPU()
 //	os.Open / os.ReadFile / io.Copy / io.ReadAll -> vsched wrappers (yield + fault injection point)
+//	syscall.Mmap / unix.Mmap         -> vsched.Mmap (fault: the file shrinks under the mapping)
 //
 // It reads the non-test files of the named packages from the repository's working
 // tree, writes the rewritten copies to -out and prints `"orig": "copy",` overlay
@@ -216,6 +217,10 @@ func (r *rewriter) rewriteFile() {
 				r.count++
 			case r.pkgSel(n.Fun, "io", "ReadAll"):
 				n.Fun = vs("ReadAll")
+				r.count++
+			case r.pkgSel(n.Fun, "syscall", "Mmap"), r.pkgSel(n.Fun, "unix", "Mmap"):
+				// a mapped file can be truncated by someone else: an environment answer like a failing read
+				n.Fun = vs("Mmap")
 				r.count++
 			}
 		case *ast.SelectorExpr:
